@@ -216,9 +216,19 @@ def harness_main(prop, run, replay=None):
             rp = json.load(f)
     ctx = Ctx(prop, tier, seed, driver_ok, rp)
     rep = Report(prop)
-    if rp is not None and replay is not None:
-        replay(ctx, rep, rp)
-    else:
-        run(ctx, rep)
+    try:
+        if rp is not None and replay is not None:
+            replay(ctx, rep, rp)
+        else:
+            run(ctx, rep)
+    except Exception as exc:      # noqa: BLE001
+        # the instrumentation / generators no longer fit the code under test (an API, a draw protocol or a data layout
+        # changed): that is a broken correspondence, to be reported as such, not an infrastructure failure that hides it
+        import traceback
+        tb = traceback.format_exc()
+        rep.disagree(f"the harness raised {type(exc).__name__}: {exc} (instrumentation and code no longer fit)",
+                     {"traceback": tb[-1500:]})
+        if not rep.rule:
+            rep.rule = "harness aborted"
     with open(out, "w") as f:
         json.dump(rep.to_json(), f, default=str)
